@@ -4,6 +4,7 @@ import (
 	"bytes"
 	"fmt"
 	"go/ast"
+	"go/constant"
 	"go/printer"
 	"go/token"
 	"go/types"
@@ -14,6 +15,8 @@ import (
 	"sort"
 	"strconv"
 	"strings"
+	"sync"
+	"verif/wscheck/internal/fold"
 
 	"golang.org/x/tools/go/ssa"
 
@@ -32,6 +35,7 @@ type bceSite struct {
 	// Callee is set when the check belongs to the body of a callee that the
 	// compiler inlined at this call expression ("pkgpath.Name").
 	Callee string
+	Lbrack token.Pos // position of the '[' (the position go/ssa gives the instruction)
 }
 
 func (s bceSite) Key() string { return s.Func + ": " + s.Expr }
@@ -163,6 +167,12 @@ func (c *Ctx) locateSite(s *bceSite) {
 				s.Expr = "inlined " + s.Callee + " at " + exprText(c.P.Fset, ce.Fun) + "(...)"
 			} else if best != nil {
 				s.Expr = normExpr(c.P.Fset, pk.TypesInfo, best)
+				switch x := best.(type) {
+				case *ast.IndexExpr:
+					s.Lbrack = x.Lbrack
+				case *ast.SliceExpr:
+					s.Lbrack = x.Lbrack
+				}
 			} else {
 				s.Expr = fmt.Sprintf("<expression at column %d>", s.Col)
 			}
@@ -286,6 +296,13 @@ func normExpr(fset *token.FileSet, info *types.Info, n ast.Node) string {
 	var b bytes.Buffer
 	var w func(e ast.Node)
 	w = func(e ast.Node) {
+		if ex, ok := e.(ast.Expr); ok {
+			// constant expressions (named constants, len of arrays, literals in any base) by value
+			if tv, ok := info.Types[ex]; ok && tv.Value != nil && tv.Value.Kind() == constant.Int {
+				b.WriteString(tv.Value.ExactString())
+				return
+			}
+		}
 		switch x := e.(type) {
 		case *ast.Ident:
 			obj := info.Uses[x]
@@ -357,4 +374,157 @@ func normExpr(fset *token.FileSet, info *types.Info, n ast.Node) string {
 	}
 	w(n)
 	return b.String()
+}
+
+// owners maps an unexported module function that has exactly one static caller
+// in the module (and whose address is never taken) to that caller: such a
+// helper is a piece of its caller's body that was moved out, so a reviewed
+// argument about the caller's code extends to it. ownerChain follows the map.
+func (c *Ctx) owners() map[string]string {
+	if c.ownerMap != nil {
+		return c.ownerMap
+	}
+	callers := map[string]map[string]bool{}
+	taken := map[string]bool{}
+	exported := map[string]bool{}
+	for _, fn := range c.P.AllModuleFuncs() {
+		from := astFuncName(fn)
+		if fn.Parent() == nil && (ast.IsExported(fn.Name()) || fn.Name() == "init") {
+			exported[from] = true
+		}
+		for _, b := range fn.Blocks {
+			for _, in := range b.Instrs {
+				var callee *ssa.Function
+				if ci, ok := in.(ssa.CallInstruction); ok {
+					callee = ci.Common().StaticCallee()
+				}
+				for _, op := range in.Operands(nil) {
+					if op == nil || *op == nil {
+						continue
+					}
+					f, ok := (*op).(*ssa.Function)
+					if !ok || !load.InModule(f) || f.Parent() != nil {
+						continue
+					}
+					name := astFuncName(f)
+					if f == callee {
+						if name != from {
+							if callers[name] == nil {
+								callers[name] = map[string]bool{}
+							}
+							callers[name][from] = true
+						}
+						continue
+					}
+					taken[name] = true // used as a value: callers unknown
+				}
+				// a bound method or interface method value hides its callers as well
+				if mc, ok := in.(*ssa.MakeClosure); ok {
+					if f, ok := mc.Fn.(*ssa.Function); ok && f.Synthetic != "" {
+						taken[strings.TrimSuffix(astFuncName(f), "$bound")] = true
+					}
+				}
+			}
+		}
+	}
+	// methods may be called through interfaces: only those no interface in the module or std could reach
+	// are treated as statically called. Conservative: a method is a helper only if its name is unexported.
+	// CHA sees dynamic calls too (interface dispatch, function values): add them
+	for f, node := range c.P.CHA().Nodes {
+		if f == nil || !load.InModule(f) {
+			continue
+		}
+		name := astFuncName(f)
+		for _, e := range node.In {
+			if e.Caller.Func == nil {
+				continue
+			}
+			from := astFuncName(e.Caller.Func)
+			if from == name {
+				continue
+			}
+			if callers[name] == nil {
+				callers[name] = map[string]bool{}
+			}
+			callers[name][from] = true
+		}
+	}
+	c.ownerMap = map[string]string{}
+	for name, cs := range callers {
+		if exported[name] || taken[name] || len(cs) != 1 {
+			continue
+		}
+		for from := range cs {
+			c.ownerMap[name] = from
+		}
+	}
+	return c.ownerMap
+}
+
+func (c *Ctx) ownerChain(name string) []string {
+	out := []string{name}
+	seen := map[string]bool{name: true}
+	for {
+		o, ok := c.owners()[name]
+		if !ok || seen[o] {
+			return out
+		}
+		seen[o] = true
+		out = append(out, o)
+		name = o
+	}
+}
+
+// foldBounds collects what the total folds established about index / slice
+// instructions: a fold is total when it explores its entry function for every
+// input (all cells, all symbolic bytes, all callee outcomes) and no path was
+// aborted. For such an entry every executed bounds check that was in range on
+// every path is decided, for the entry itself and for every helper that is
+// only ever called from it.
+type foldBounds struct {
+	mu      sync.Mutex
+	note    map[token.Pos]string // worst note per instruction
+	count   map[token.Pos]int
+	entries map[string]bool // astFuncName of entry functions explored totally
+}
+
+// harvestBounds records the bounds notes of a total exploration of entry.
+// It must only be called with the complete set of paths of the exploration.
+func (c *Ctx) harvestBounds(entry *ssa.Function, paths []*fold.Path) {
+	for _, p := range paths {
+		if p.Abort != "" {
+			return // not total: nothing is concluded
+		}
+	}
+	c.fb.mu.Lock()
+	defer c.fb.mu.Unlock()
+	if c.fb.note == nil {
+		c.fb.note, c.fb.count, c.fb.entries = map[token.Pos]string{}, map[token.Pos]int{}, map[string]bool{}
+	}
+	c.fb.entries[astFuncName(entry)] = true
+	rank := map[string]int{"proven": 0, "unproven": 1, "violated": 2}
+	for _, p := range paths {
+		for _, b := range p.Bounds {
+			c.fb.count[b.Pos]++
+			if old, ok := c.fb.note[b.Pos]; !ok || rank[b.Note] > rank[old] {
+				c.fb.note[b.Pos] = b.Note
+			}
+		}
+	}
+}
+
+// decidedByFold reports whether the bounds site was executed by a total fold,
+// in range every time, in a function all of whose executions the fold covers.
+func (c *Ctx) decidedByFold(s bceSite) (string, bool) {
+	c.fb.mu.Lock()
+	defer c.fb.mu.Unlock()
+	if !s.Lbrack.IsValid() || c.fb.note[s.Lbrack] != "proven" {
+		return "", false
+	}
+	for _, o := range c.ownerChain(s.Func) {
+		if c.fb.entries[o] {
+			return fmt.Sprintf("decided by the total fold of %s: in range on all %d executions of the site", o, c.fb.count[s.Lbrack]), true
+		}
+	}
+	return "", false
 }
